@@ -56,7 +56,13 @@ pub fn ref_expr(e: &MExpr) -> String {
         MExpr::Float(s) => format!("(float {})", hex(&float_canon(s))),
         MExpr::Bool(b) => format!("(bool {b})"),
         MExpr::Bits(s) => format!("(bits {})", hex(s)),
-        MExpr::Timing(n, u) => format!("(timing {n} {u})"),
+        MExpr::Timing(n, u) => {
+            if n.contains('.') {
+                format!("(timingf {} {u})", hex(&float_canon(n)))
+            } else {
+                format!("(timing {n} {u})")
+            }
+        }
         MExpr::Imag(n) => format!("(imag {n})"),
         MExpr::Ident(n) => format!("(id {n})"),
         MExpr::HwQubit(n) => format!("(hw ${n})"),
